@@ -1,7 +1,7 @@
 """C06 — RPC message codec is exact, total and strict (structural clauses)."""
 import re
 
-from analysis import (Prov, Guards, fmt, fmt_short, walk, roots, short, canon, lossy_casts, comparison, find_calls, callee_matches,
+from analysis import (flow_key, Prov, Guards, fmt, fmt_short, walk, roots, short, canon, lossy_casts, comparison, find_calls, callee_matches,
                       must_pass, const_int_of, writes_into, _lin_add)
 from aff import Aff, Fact
 from facts import AnchorError, strip_closure
@@ -53,7 +53,7 @@ def classes_written(facts, body_pat, enum_field):
                     ty = "alloy_rlp::Header"
                 mine.append((bi, ty))
         # order by dominance
-        mine.sort(key=lambda x: sum(1 for y in mine if y[0] != x[0] and must_pass(b, [x[0]], via_blocks=[y[0]])))
+        mine.sort(key=flow_key(b, mine))
         seq = []
         prev = None
         inner_headers = [bi for bi, ty in mine if cls(ty) == "header"]
@@ -233,13 +233,13 @@ def r1_r2_r3(ctx):
         if n.endswith("Header::decode"):
             return "header"
         return cls(n.split(" as ")[0].lstrip("<"))
-    common.sort(key=lambda x: sum(1 for y in common if y[0] != x[0] and must_pass(b, [x[0]], via_blocks=[y[0]])))
+    common.sort(key=flow_key(b, common))
     prefix = [rcls(t) for _, t in common if rcls(t) != "header"]
     read = {}
     for blk, (variant, bodies, arm, line) in sites.items():
         tb = arms[arm]
         mine = [(bi, t) for bi, t in reads if bi in b.reachable(tb) and not any(bi in b.reachable(ob) for ok_, ob in arms.items() if ob != tb)]
-        mine.sort(key=lambda x: sum(1 for y in mine if y[0] != x[0] and must_pass(b, [x[0]], via_blocks=[y[0]])))
+        mine.sort(key=flow_key(b, mine))
         seq = []
         for bi, t in mine:
             c = rcls(t)
